@@ -39,6 +39,20 @@ fn main() {
                 2
             }
         },
+        Some("seq") if args.len() >= 3 => {
+            // development: several plans back to back in this process, traces printed
+            let scn = scenarios::by_name(&args[1]).expect("scenario");
+            world::KEEP_TRACE.store(true, std::sync::atomic::Ordering::Relaxed);
+            for a in &args[2..] {
+                let idx: u64 = a.parse().expect("index");
+                let o = scn.execute(&scn.generate(seed, idx, scenario::Tier::Quick));
+                println!("index {} hash {:016x}", idx, o.trace_hash);
+                for e in world::take_kept_trace() {
+                    println!("   {} {:?} {} {} {}", e.t_us, e.kind, e.obj, e.a, e.b);
+                }
+            }
+            0
+        }
         Some("scenarios") => {
             for s in scenarios::all() {
                 println!("{}", s.name());
